@@ -9,7 +9,7 @@ func init() {
 			"the stale filter's extracted decision table equals the definition (unassigned, and no stops or first-stop departure-else-arrival time zero or strictly before the feed time) and ShouldSkip additionally requires the extension and the option. " +
 			"Not decided: the exhaustive 000000-599999 arithmetic of the origin-time conversion (numerical; only its integer-ness and source are checked).",
 		Rules: []Rule{
-			{Name: "NYCT", Doc: "NYCT trips extension clauses", MinInstances: 14, Run: runNyctTrips},
+			{Name: "NYCT", Doc: "NYCT trips extension clauses", MinInstances: 9, Run: runNyctTrips},
 			{Name: "G1", Doc: "type assertions on extensions justified (shared with C05)", MinInstances: 1, Run: func(c *Ctx) {
 				e, _ := c05Engine(c)
 				sub := &nilEngine{}
@@ -33,7 +33,7 @@ func init() {
 			"elevator alerts: cause maintenance, effect accessibility issue; the group id per policy is <station>#EL<elevator> / elevator:EL<elevator> / <platform>#EL<elevator> from the three regexp groups; the informed stop is the station id when configured, else the platform id; a stop is appended only if a scan over all of the group's informed entities found no equal stop id; every write of the elevator path is dominated by a successful id match. " +
 			"The extension's cross-feed state is reported under C06/C18 (known finding D12).",
 		Rules: []Rule{
-			{Name: "ALRT", Doc: "NYCT alerts extension clauses", MinInstances: 14, Run: runNyctAlerts},
+			{Name: "ALRT", Doc: "NYCT alerts extension clauses", MinInstances: 9, Run: runNyctAlerts},
 		},
 	})
 }
